@@ -12,5 +12,6 @@ CONSTANTS
   AtomicNew = FALSE
   AtomicLine = TRUE
   ObjCid = TRUE
+  Sink <- KeepAll
 INVARIANTS Unique
 CHECK_DEADLOCK FALSE
